@@ -39,7 +39,7 @@ RandArg(k) == LET x == Rand(SeedProp + 77, k) IN <<"r" \o IntStr(k), IF Digits(x
 NumArgsAll == NumArgs \o [k \in 1..NRandom |-> RandArg(k)]
 Unary == <<"abs", "sqrt", "round", "sin", "cos", "tan">>
 UnaryCases == Cross(Unary, LAMBDA f : NumArgsAll, LAMBDA f, a : [t |-> <<SPrint(Call(Id(f), <<a[2]>>))>>, c |-> "num:" \o f, key |-> f \o "(" \o a[1] \o ")", stdin |-> <<>>])
-PowArgs == SubSeq(NumArgs, 1, 8) \o SubSeq(NumArgs, 17, 25)
+PowArgs == SubSeq(NumArgs, 1, 8) \o SubSeq(NumArgs, 17, 25) \o << <<"10", Num(10)>>, <<"-320", Neg(Num(320))>>, <<"-1074", Neg(Num(1074))>>, <<"-1030", Neg(Num(1030))>>, <<"1023", Num(1023)>>, <<"-3", Neg(Num(3))>> >>
 PowCases == Cross(PowArgs, LAMBDA a : PowArgs, LAMBDA a, b : [t |-> <<SPrint(Call(Id("pow"), <<a[2], b[2]>>)), SPrint(Bin("**", a[2], b[2])),
                                                                      SPrint(Bin("==", Call(Id("pow"), <<a[2], b[2]>>), Bin("**", a[2], b[2])))>>,
                                                                c |-> "num:pow", key |-> "pow(" \o a[1] \o "," \o b[1] \o ")", stdin |-> <<>>])
